@@ -265,8 +265,12 @@ def events_script(w, st, res):
                     r = w.eval_commit(rng.choice(tips))
                     res.append(dict(step='eval_commit', p=p, status=r['status']))
 
+    from .scenario import event_equiv
     for rnd in range(rng.randrange(4, 9)):
         deliver()
+        if rng.random() < 0.35:
+            event_equiv(w, dict(p=rng.randrange(1, st['npr'] + 1),
+                                via=rng.choice(['child', 'src_commit', 'w_commit'])), res)
         x = rng.random()
         p = rng.randrange(1, st['npr'] + 1)
         if x < 0.25:
@@ -290,3 +294,63 @@ def events_script(w, st, res):
     finish_queue(w, res)
     for p in range(1, st['npr'] + 1):
         ev(w, p, res)
+
+
+def repeat_script(w, st, res):
+    """C10: states with blocked / dependent / queued / merged / declined pull requests and pending commands;
+    every evaluation three times in a row; the same evaluation on a fresh OS process and on the long-lived
+    instance (after it has processed other pull requests carrying options)."""
+    from .scenario import fresh_compare
+    rng = random.Random(st['seed'])
+    branches = w.init_branches
+    single = branches[-1]                      # a single-target destination (last development branch)
+    w.pmap[1] = w.open_pr('bugfix/TEST-1', branches[0])
+    w.pmap[2] = w.open_pr('bugfix/TEST-2', rng.choice(branches))
+    w.pmap[3] = w.open_pr('bugfix/TEST-3', single)
+    w.comment(P(w, 2), CONTRIB, '@robot after_pull_request=%d' % P(w, 1))
+    if rng.random() < 0.5:
+        w.comment(P(w, 3), CONTRIB, '@robot unanimity')
+
+    def thrice(p):
+        for _ in range(3):
+            ev(w, p, res)
+
+    def everyone():
+        order = [1, 2, 3]
+        rng.shuffle(order)
+        for p in order:
+            thrice(p)
+
+    def compare_all():
+        for p in (3, 1, 2):
+            if w.pr(P(w, p)).status in ('OPEN', 'DECLINED'):
+                fresh_compare(w, dict(p=p), res)
+
+    everyone()
+    compare_all()
+    approve(w, 1)
+    approve(w, 3)
+    everyone()
+    report_pr(w, 1, 'SUCCESSFUL')
+    report_pr(w, 3, rng.choice(['SUCCESSFUL', 'FAILED']))
+    everyone()
+    compare_all()
+    # pending commands: help, then reset twice in a row on the single-target pull request
+    w.comment(P(w, 3), CONTRIB, '@robot help')
+    thrice(3)
+    w.comment(P(w, 3), CONTRIB, '@robot reset')
+    thrice(3)
+    w.comment(P(w, 3), CONTRIB, '@robot reset')
+    thrice(3)
+    report_pr(w, 3, 'SUCCESSFUL')
+    thrice(3)
+    finish_queue(w, res)
+    everyone()
+    if rng.random() < 0.5:
+        for p in (1, 2, 3):
+            if w.pr(P(w, p)).status == 'OPEN' and rng.random() < 0.5:
+                w.decline(P(w, p))
+    everyone()
+    compare_all()
+    finish_queue(w, res)
+    everyone()
